@@ -17,9 +17,9 @@ CHECKS = {
     note="bounded configurations; sending is one step (C12); preemption at shared-object operations (source lines in the thorough tier); simulated Lock/Condition/clock/transport"),
  "C14": dict(
     spec="RpycServe", design="5/C14",
-    technique="TLC invariant OnlyKnownStalls on RpycServe + TLC counterexample to NoStall replayed on the real code in virtual time; implementation schedule exploration with stall classification against known_findings.json",
-    text="the model of the pinned serve() (notify before dispatch) violates NoStall; TLC's counterexample is followed step by step in the real code and the stall is measured in virtual time (known finding); TLC proves every reachable stall of the model has the known hand-off shape, and every explored implementation schedule is classified the same way, so a stall of any other shape is reported",
-    note="bounded configurations; virtual time: timeouts only run out at quiescence; the known hand-off stall is listed in known_findings.json"),
+    technique="TLA+ spec RpycServe with both variants of serve() (constant Handoff): TLC proves NoStall for the repaired hand-off (replies in transit counted under the receive lock, readiness re-checked under both locks, notification after dispatch) and keeps producing the NoStall counterexample for the pinned one; the driver takes the variant from the working tree, replays the state graph and the pinned counterexample on the real code in virtual time, and explores implementation schedules (random, every source line as forced preemption point, background thread, exception replies) with a stall oracle and TLC trace validation",
+    text="TLC exhausts 1-3 client threads (+ background server) of the serve() in the working tree: no reachable state has a waiter blocked in poll or in the condition wait after its result was published with nobody left to wake it; the real code is driven along the state graph and along thousands of schedules under virtual time, each waiter's return time compared with the time its reply was dispatched, and every trace validated by TLC against the same specification; on a tree with the pinned serve() the counterexample schedule is replayed and the 30 s stall reported",
+    note="bounded configurations; virtual time: timeouts only run out at quiescence; the hand-off stall of the pinned tree was repaired (fixed: entry in known_findings.json)"),
  "C10": dict(
     spec="RpycLifetime", design="5/C10",
     technique="TLA+ specs RpycLifetime (owner table counts, proxy counts, two FIFO streams) and RpycLifetimeInspect (objects of user classes: unboxing suspended in a nested INSPECT round trip that serves further references, several proxy objects per key) model-checked by TLC with the Accounting invariant; transition-cover and random histories executed on two real Connections with frame-by-frame manual delivery, compared state by state and trace-validated by TLC; reference-count and identity oracles; TLA+ spec RpycRefColl (owner's table under a sending and a serving thread) with line-granularity schedules of the real RefCountingColl; the reference traffic of the repository's own test suite validated by TLC against RpycEndpointRefs (owner's end)",
